@@ -46,7 +46,74 @@ func (fg *FnGen) declFor(kind, path string) *Decl {
 			return d
 		}
 	}
+	// a field of a struct that is itself a (value) field of another struct: pkg.A.b.f is the field f of the type of
+	// A.b; declarations are written against that type (T.f)
+	if alt := fg.g.nestedFieldOwner(path); alt != "" {
+		for _, d := range fg.g.cs.Decls {
+			if d.Kind == kind && len(d.Args) > 0 && (d.Args[0] == alt || strings.HasSuffix(alt, "."+d.Args[0])) {
+				return d
+			}
+		}
+	}
 	return nil
+}
+
+// nestedFieldOwner: for a component path pkg.A.b.c.f returns pkg2.T.f where T is the named struct type of A.b.c;
+// "" when the path is not nested or cannot be resolved.
+func (g *Gen) nestedFieldOwner(path string) string {
+	if g.nestedOwnerCache == nil {
+		g.nestedOwnerCache = map[string]string{}
+	}
+	if r, ok := g.nestedOwnerCache[path]; ok {
+		return r
+	}
+	res := ""
+	parts := strings.Split(path, ".")
+	if len(parts) >= 4 {
+		// parts[0] = package name, parts[1] = type name, parts[2:] = fields
+		for pp, p := range g.allPkgs {
+			if p.Name != parts[0] || p.Types == nil {
+				continue
+			}
+			o := p.Types.Scope().Lookup(parts[1])
+			if o == nil {
+				continue
+			}
+			T := o.Type()
+			ok := true
+			for _, f := range parts[2 : len(parts)-1] {
+				st, isSt := types.Unalias(T).Underlying().(*types.Struct)
+				if !isSt {
+					ok = false
+					break
+				}
+				found := false
+				for i := 0; i < st.NumFields(); i++ {
+					if st.Field(i).Name() == f {
+						T = st.Field(i).Type()
+						found = true
+						break
+					}
+				}
+				if !found {
+					ok = false
+					break
+				}
+			}
+			if !ok {
+				continue
+			}
+			if n, isN := types.Unalias(T).(*types.Named); isN {
+				if _, isSt := n.Underlying().(*types.Struct); isSt {
+					res = typeKey(n) + "." + parts[len(parts)-1]
+					_ = pp
+					break
+				}
+			}
+		}
+	}
+	g.nestedOwnerCache[path] = res
+	return res
 }
 
 func (fg *FnGen) concurrencyCall(cc *ssa.CallCommon, args []*Val, resT types.Type, pos token.Pos) (*Val, bool) {
@@ -92,13 +159,25 @@ func (fg *FnGen) lockAcquire(comp string, idx Term, pos token.Pos, path string) 
 	fg.set(comp, Store(a, idx, TTrue))
 	// lock invariant may be assumed
 	if d := fg.declFor("lockinv", path); d != nil && d.Expr != nil {
-		env := fg.env(fg.cur, fg.entry, map[string]*Val{"self": {T: types.Typ[types.Int], L: []Term{idx}}})
+		env := fg.env(fg.cur, fg.entry, map[string]*Val{"self": fg.lockOwnerVal(d, idx)})
 		env.selfPath = path
 		fg.assume(fg.evalBool(d.Expr, env))
 	}
 	// atomics guarded by this lock become stable: forget stale knowledge now, keep it while held
 	fg.havocAtomicsGuardedBy(path, idx)
 	fg.clearObservations(path, idx)
+}
+
+// lockOwnerVal: `self` in a lock invariant `decl lockinv T.mu: expr` is the object that owns the mutex, typed *T.
+func (fg *FnGen) lockOwnerVal(d *Decl, idx Term) *Val {
+	if len(d.Args) > 0 {
+		if k := strings.LastIndex(d.Args[0], "."); k > 0 {
+			if T := fg.g.resolveTypeString(d.Args[0][:k], d.PkgPath); T != nil {
+				return &Val{T: types.NewPointer(T), L: []Term{idx}}
+			}
+		}
+	}
+	return &Val{T: types.Typ[types.Int], L: []Term{idx}}
 }
 
 // clearObservations: flag observations are valid only within one critical section of the guarding lock.
@@ -171,7 +250,7 @@ func (fg *FnGen) lockRelease(comp string, idx Term, pos token.Pos, path string) 
 		fg.oblige("lock.held", path, Select(a, idx), pos, "unlock of a mutex that is held")
 	}
 	if d := fg.declFor("lockinv", path); d != nil && d.Expr != nil {
-		env := fg.env(fg.cur, fg.entry, map[string]*Val{"self": {T: types.Typ[types.Int], L: []Term{idx}}})
+		env := fg.env(fg.cur, fg.entry, map[string]*Val{"self": fg.lockOwnerVal(d, idx)})
 		env.selfPath = path
 		fg.oblige("lockinv", path, fg.evalBool(d.Expr, env), pos, "lock invariant re-established at unlock: "+d.Src)
 	}
@@ -356,6 +435,10 @@ func (fg *FnGen) guardedLoad(l *Loc, x ssa.Instruction) {
 	lockPath := fg.resolveSiblingPath(l.Prefix, d.Args[2])
 	h := fg.get(fg.cur, "held:"+lockPath, ArrSort(SBool))
 	goal := Select(h, l.Base)
+	// a read is also protected by the read side of an RWMutex
+	if rh, ok := fg.compSorts["rheld:"+lockPath]; ok && rh == ArrSort(SBool) {
+		goal = Or(goal, Select(fg.get(fg.cur, "rheld:"+lockPath, ArrSort(SBool)), l.Base))
+	}
 	desc := "field " + l.Prefix + " is read only while " + lockPath + " is held"
 	if len(d.Args) >= 5 && d.Args[3] == "when" {
 		flag := strings.TrimPrefix(d.Args[4], "!")
@@ -444,6 +527,82 @@ func (fg *FnGen) closeChan(ch *Val, pos token.Pos) {
 	fg.set("closed:chan", Store(cc, ch.one(), TTrue))
 }
 
+// channel invariants: `decl chaninv T.f: expr(self)` is a rely/guarantee pair over the close of the channel in
+// field f of a T: the closer establishes expr for the owning object (obligation at close(x.f)), and a goroutine that
+// received from x.f (the channel carries no messages: only its close wakes a receiver - trusted, together with: the
+// fields named in expr are not written after the close) may assume it.
+func (fg *FnGen) chanInvDecl(sv ssa.Value) (*Decl, Term, bool) {
+	u, ok := sv.(*ssa.UnOp)
+	if !ok || u.Op != token.MUL {
+		return nil, Term{}, false
+	}
+	fa, ok := u.X.(*ssa.FieldAddr)
+	if !ok {
+		return nil, Term{}, false
+	}
+	a := fg.vals[fa]
+	if a == nil || a.Loc == nil || a.Loc.Elem {
+		return nil, Term{}, false
+	}
+	d := fg.declFor("chaninv", a.Loc.Prefix)
+	if d == nil || d.Expr == nil {
+		return nil, Term{}, false
+	}
+	return d, a.Loc.Base, true
+}
+
+func (fg *FnGen) chanInvAtClose(ch *Val, sv ssa.Value, pos token.Pos) {
+	d, base, ok := fg.chanInvDecl(sv)
+	if !ok {
+		return
+	}
+	env := fg.env(fg.cur, fg.entry, map[string]*Val{"self": fg.lockOwnerVal(d, base)})
+	fg.oblige("chaninv", d.Args[0], fg.evalBool(d.Expr, env), pos, "channel invariant established before close: "+d.Src)
+}
+
+func (fg *FnGen) chanInvAfterRecv(sv ssa.Value, cond Term) {
+	d, base, ok := fg.chanInvDecl(sv)
+	if !ok {
+		return
+	}
+	env := fg.env(fg.cur, fg.entry, map[string]*Val{"self": fg.lockOwnerVal(d, base)})
+	fg.assume(Implies(cond, fg.evalBool(d.Expr, env)))
+	fg.note("channel invariant assumed after receiving from " + d.Args[0] + " (rely: the channel is only ever closed, never sent on, and the fields of the invariant are not written after the close)")
+}
+
+// context.Context (assumed contract of the standard library): Done's channel is closed when the context ends, and
+// "if Done is closed, Err returns a non-nil error". A receive from ctx.Done() marks that context as done; Err on a
+// context marked done returns non-nil.
+func isContextType(T types.Type) bool {
+	n, ok := types.Unalias(T).(*types.Named)
+	return ok && n.Obj().Pkg() != nil && n.Obj().Pkg().Path() == "context" && n.Obj().Name() == "Context"
+}
+
+func (fg *FnGen) ctxDoneAfterRecv(sv ssa.Value, cond Term) {
+	c, ok := sv.(*ssa.Call)
+	if !ok || !c.Call.IsInvoke() || c.Call.Method.Name() != "Done" || !isContextType(c.Call.Value.Type()) {
+		return
+	}
+	v := fg.val(c.Call.Value)
+	if len(v.L) != 2 {
+		return
+	}
+	fg.compSort("ctxdone", ArrSort(ArrSort(SBool)))
+	cur := fg.get(fg.cur, "ctxdone", ArrSort(ArrSort(SBool)))
+	inner := Select(cur, v.L[0])
+	fg.set("ctxdone", Store(cur, v.L[0], Store(inner, v.L[1], Or(Select(inner, v.L[1]), cond))))
+}
+
+func (fg *FnGen) ctxErrAfterCall(cc *ssa.CallCommon, args []*Val, res *Val) {
+	if !cc.IsInvoke() || cc.Method.Name() != "Err" || !isContextType(cc.Value.Type()) || res == nil || len(args) == 0 || len(args[0].L) != 2 {
+		return
+	}
+	fg.compSort("ctxdone", ArrSort(ArrSort(SBool)))
+	cur := fg.get(fg.cur, "ctxdone", ArrSort(ArrSort(SBool)))
+	fg.assume(Implies(Select(Select(cur, args[0].L[0]), args[0].L[1]), Not(fg.isNil(res))))
+	fg.note("assumed contract of context.Context: after a receive from ctx.Done(), ctx.Err() is non-nil")
+}
+
 func (fg *FnGen) send(x *ssa.Send) {
 	fg.note("channel send: no effect on modelled state")
 	comp := "cnt:chansend"
@@ -462,6 +621,8 @@ func (fg *FnGen) recv(x *ssa.UnOp) {
 	if !x.CommaOk || true {
 		fg.atWait([]Term{fg.val(x.X).one()}, x.Pos())
 	}
+	fg.chanInvAfterRecv(x.X, TTrue)
+	fg.ctxDoneAfterRecv(x.X, TTrue)
 }
 
 // atWait: a blocking wait (plain receive, or select without default) is the pseudo call "$wait"; contracts
@@ -470,6 +631,7 @@ func (fg *FnGen) atWait(chans []Term, pos token.Pos) {
 	saved := fg.waitChans
 	fg.waitChans = chans
 	fg.atCallAsserts("$wait", nil, pos)
+	fg.atCallGhosts("$wait", nil, nil, pos)
 	fg.waitChans = saved
 }
 
@@ -498,6 +660,12 @@ func (fg *FnGen) selectInstr(x *ssa.Select) {
 			}
 		}
 		fg.atWait(chans, x.Pos())
+	}
+	for i, st := range x.States {
+		if st.Dir == types.RecvOnly {
+			fg.chanInvAfterRecv(st.Chan, Eq(idx, IntLit(int64(i))))
+			fg.ctxDoneAfterRecv(st.Chan, Eq(idx, IntLit(int64(i))))
+		}
 	}
 }
 
